@@ -135,6 +135,26 @@ Proof.
   - split; [eexists; split; vm_compute; reflexivity|]. split; [vm_compute; discriminate | vm_compute; reflexivity].
 Qed.
 
+(* ... and the class is EXACT: every filter (built through the API, MPD-word tags, accepted by
+   Command::argument) with a double quote in some value is rejected by MPD's tokenizer; so, among the
+   filters that were sent and respect MPD's length limit, the server reads back what was built if and
+   only if no value holds a double quote. *)
+Theorem c11_quote_always_rejected : forall name c0 c f,
+  wf_bytes name -> build name = inr c0 ->
+  built f -> Forall (fun tv => valid_tagb (fst tv) = true) (leaves f) ->
+  has_dq f = true ->
+  argument_filter c0 f = Sent c ->
+  mpd_tokenize (send_bytes c) = None.
+Proof. intros name c0 c f Wn Hb Hf. apply (dquote_rejected name c0 c f Wn Hb (built_wf f Hf)). Qed.
+
+Theorem c11_roundtrip_iff : forall lenient name c0 c f,
+  wf_bytes name -> build name = inr c0 -> built f ->
+  Forall leaf_ok (leaves f) ->
+  argument_filter c0 f = Sent c ->
+  ((exists e, mpd_tokenize (send_bytes c) = Some [name; e] /\ mpd_parse_filter_gen lenient e = Some (shape_of f, []))
+   <-> has_dq f = false).
+Proof. intros lenient name c0 c f Wn Hb Hf. apply (roundtrip_iff lenient name c0 c f Wn Hb (built_wf f Hf)). Qed.
+
 (* non-vacuity: and / negate / exists nested, all three associations of and, values with blanks,
    parentheses, the word AND, a single quote, backslashes, non-ASCII bytes and the empty value *)
 Definition ex_filter : ftype :=
@@ -165,6 +185,16 @@ Example c11_ex_args :
     mpd_parse_filter e = Some (shape_of ex_filter, []).
 Proof. do 4 eexists. repeat split; vm_compute; reflexivity. Qed.
 
+(* the exact class, non-vacuously: a quote deep inside a nested filter, followed by a blank *)
+Example c11_ex_quote :
+  let f := filter_and (filter_tag (Named T_Album) (b "x")) (filter_negate (filter_tag (Named T_Title) (b "a" ++ [DQ] ++ b " b"))) in
+  built f /\ has_dq f = true /\ Forall leaf_ok (leaves f) /\
+  exists c, argument_filter (b "find") f = Sent c /\ mpd_tokenize (send_bytes c) = None.
+Proof.
+  cbv zeta. split; [repeat (first [apply built_and | apply built_negate | apply built_new])|].
+  split; [reflexivity|]. split; [repeat constructor|]. eexists. split; vm_compute; reflexivity.
+Qed.
+
 Print Assumptions c11_and_inv.
 Print Assumptions c11_render_never_panics.
 Print Assumptions c11_roundtrip.
@@ -180,5 +210,8 @@ Print Assumptions c11_and_associative.
 Print Assumptions c11_negate.
 Print Assumptions c11_exists_absent.
 Print Assumptions c11_refuted_quote.
+Print Assumptions c11_quote_always_rejected.
+Print Assumptions c11_roundtrip_iff.
 Print Assumptions c11_ex.
 Print Assumptions c11_ex_args.
+Print Assumptions c11_ex_quote.
